@@ -614,13 +614,21 @@ func c05(c *Ctx) {
 			return
 		}
 		okTs := false
+		tsBlocks := map[*ssa.BasicBlock]bool{}
 		for _, st := range fieldStores(hd, "Metric", "Timestamp") {
-			if paramIndex(hd, st.Val) == 3 && (st.Block() == app.Block() || st.Block().Dominates(app.Block())) {
-				okTs = true
+			if paramIndex(hd, st.Val) == 3 {
+				if st.Block() == app.Block() {
+					okTs = instrDominates(st, app)
+				} else {
+					tsBlocks[st.Block()] = true
+				}
 			}
 			r.Check("timestamp:value", paramIndex(hd, st.Val) == 3, st.Pos(), "Timestamp <- "+pathOf(st.Val)+" (must be the datagram time parameter)")
 		}
-		r.Check("timestamp:on-every-metric", okTs, app.Pos(), "the timestamp store dominates the append")
+		if !okTs && len(tsBlocks) > 0 {
+			okTs = !pathsAvoiding(hd.Blocks[0], app.Block(), func(b *ssa.BasicBlock) bool { return tsBlocks[b] })
+		}
+		r.Check("timestamp:on-every-metric", okTs, app.Pos(), "every path to the append passes a store of the datagram time into Timestamp")
 		nSrcIP, nSrcTag := 0, 0
 		for _, st := range fieldStores(hd, "Metric", "Source") {
 			ih, known := false, false
@@ -1006,4 +1014,27 @@ func lexerTagsProvenance(c *Ctx, r *Rule) {
 	} else {
 		r.Unresolved("(*MetricPool).Get / (*Metric).Reset")
 	}
+	// a new metric starts with an empty tag buffer too (capacity may be reserved, length may not: the lexer
+	// appends to what is there)
+	nNew := 0
+	for _, fn := range pkgFuncs(w, "internal/pool") {
+		for _, st := range fieldStores(fn, "Metric", "Tags") {
+			nNew++
+			ok := false
+			switch v := st.Val.(type) {
+			case *ssa.Const:
+				ok = v.Value == nil
+			case *ssa.MakeSlice:
+				k, isC := constInt(v.Len)
+				ok = isC && k == 0
+			case *ssa.Slice:
+				if v.High != nil {
+					k, isC := constInt(v.High)
+					ok = isC && k == 0
+				}
+			}
+			r.Check("MetricPool.new:tags-empty:"+FuncName(fn), ok, st.Pos(), "the pool sets Tags to "+exprString(st.Val, 0)+" (must have length 0)")
+		}
+	}
+	r.Check("MetricPool.new:sites", nNew >= 1, token.NoPos, fmt.Sprintf("%d Tags stores in the pool package", nNew))
 }
